@@ -187,7 +187,7 @@ def check(case: dict[str, Any], rec: Any) -> None:
                 return
             buf = loaded
         slot = _slot(F(str(t)))
-        v = None if val is None else (math.nan if val == "nan" else float(val))
+        v = None if val is None else (float("nan") if val == "nan" else float(val))
         hist.append([t, val])
         w0 = {"history": hist[-12:], "cap": cap, "period": period, "update": [t, val], "slot": slot}
         if abs(t - round(t)) > 1e-9:
